@@ -274,19 +274,82 @@ theorem C19_large_psbt_reply (hL : L.RT) (a : α) (hok : L.ok .psbt a = true)
     (by simp [asVec, hty, enc, beBytes_length]; omega)
   simpa [Val.norm] using h
 
+/-! ### length-framed stream -/
+
+/-- generated constant: the message frame admits every u16-prefixed payload at its maximum plus a
+    header, and its length fits the u32 length field of `write_vec` -/
+theorem C19_frame_size : 2 + 2 + 65535 + 64 ≤ maxMessageSize ∧ maxMessageSize < 256 ^ 4 := by decide
+
+/-- `msgs::read (write_vec (as_vec m) ++ rest) = m`: the framed path (`write`/`write_vec` → `read`), with
+    arbitrary bytes of the next frame following -/
+theorem C19_framed (hL : L.RT) (reg : List Entry) (maxMsg i : Nat) (e : Entry) (v : Val α) (rest : Bytes)
+    (hi : reg[i]? = some e) (hns : i ∉ shadowedIdx reg)
+    (hid : e.id < 65536) (hok : e.ty.okAt true = true)
+    (hw : wf L e.ty v = true) (hlen : (asVec L e v).length ≤ maxMsg) (hmax : maxMsg < 256 ^ 4) :
+    readFrame L reg maxMsg (writeVec (asVec L e v) ++ rest) = .ok (.msg i (v.norm L.norm)) := by
+  have hm := C19_main L hL reg maxMsg i e v hi hns hid hok hw hlen
+  have h2 : 2 ≤ (asVec L e v).length := by simp [asVec, beBytes_length]
+  have hb : beVal (beBytes 4 (asVec L e v).length) = (asVec L e v).length :=
+    beVal_beBytes 4 _ (by omega)
+  have hn1 : ¬ (asVec L e v).length < 2 := by omega
+  have hn2 : ¬ (asVec L e v).length > maxMsg := by omega
+  have hn3 : (asVec L e v).length ≤ (asVec L e v ++ rest).length := by simp
+  simp only [readFrame, writeVec, List.append_assoc,
+    splitAt?_append 4 _ _ (beBytes_length 4 _), hb, hn1, hn2, hn3, if_false, if_true,
+    List.take_left' rfl, hm]
+
+/-- the framed path on the generated registry -/
+theorem C19_framed_registry (hL : L.RT) (i : Nat) (e : Entry) (v : Val α) (rest : Bytes)
+    (hi : registry[i]? = some e)
+    (hw : wf L e.ty v = true) (hlen : (asVec L e v).length ≤ maxMessageSize) :
+    readFrame L registry maxMessageSize (writeVec (asVec L e v) ++ rest) = .ok (.msg i (v.norm L.norm)) :=
+  have h := regOk_get registry C19_schema_wf.2 i e hi
+  C19_framed L hL registry maxMessageSize i e v rest hi (by rw [C19_registry.2]; simp) h.1 h.2 hw hlen
+    C19_frame_size.2
+
+/-- serial headers come back as written -/
+theorem C19_serial_request (seq dbid : Nat) (peer rest : Bytes) (hs : seq < 65536) (hp : peer.length = 33)
+    (hd : dbid < 2 ^ 64) :
+    readSerialRequest (writeSerialRequest seq peer dbid ++ rest) = some (seq, peer, dbid) := by
+  have h64 : dbid < 256 ^ 8 := by omega
+  have hm : beVal (beBytes 2 0xaa55) = 0xaa55 := by decide
+  simp [readSerialRequest, writeSerialRequest, List.append_assoc,
+    splitAt?_append 2 _ _ (beBytes_length 2 _), splitAt?_append 33 peer _ hp,
+    splitAt?_append 8 _ _ (beBytes_length 8 _), hm, beVal_beBytes 2 seq (by simpa using hs),
+    beVal_beBytes 8 dbid h64]
+
+theorem C19_serial_response (seq : Nat) (rest : Bytes) (hs : seq < 65536) :
+    readSerialResponse (writeSerialResponse seq ++ rest) seq = true := by
+  have hm : beVal (beBytes 2 0x5aa5) = 0x5aa5 := by decide
+  simp [readSerialResponse, writeSerialResponse, List.append_assoc,
+    splitAt?_append 2 _ _ (beBytes_length 2 _), hm, beVal_beBytes 2 seq (by simpa using hs)]
+
 /-! ### StreamedPSBT -/
 open Streamed
 
 theorem stepInput_spec (ti : TxIn) (pi pi' : PInput) (f : Bool) (h : stepInput ti pi = some (pi', f)) :
     match pi.nonWitnessUtxo with
-    | none => pi' = pi ∧ f = false
+    | none => pi' = pi ∧ f = false ∧ ∀ w, pi.witnessUtxo = some w → isP2pkh w.script = false
     | some ptx =>
       ptx.txid = ti.prevTxid ∧ ∃ o, ptx.outputs[ti.vout]? = some o ∧
         pi'.witnessUtxo = some o ∧ f = isWitnessProgram o.script ∧
         (pi.witnessUtxo = none ∨ pi.witnessUtxo = some o) := by
   unfold stepInput at h
   cases hn : pi.nonWitnessUtxo with
-  | none => simp [hn] at h; simp [h.1, h.2]
+  | none =>
+    simp only [hn] at h
+    cases hw : pi.witnessUtxo with
+    | none => simp [hw] at h; simp [h.1, h.2]
+    | some w =>
+      simp only [hw] at h
+      split at h
+      · cases h
+      · rename_i hp
+        simp at h
+        refine ⟨h.1.symm, h.2, ?_⟩
+        intro w' hw'
+        cases hw'
+        simpa using hp
   | some ptx =>
     simp only [hn] at h
     split at h
@@ -361,14 +424,15 @@ theorem stepAll_get (tis : List TxIn) (pis ps : List PInput) (fs : List Bool)
     unchanged, there is one flag and one summarised input per PSBT input, and for every input:
     with a supplied previous tx, its txid is the one the input spends, the decoded previous output is
     output `vout` of that tx (and agrees with a supplied witness_utxo), and the segwit flag is true
-    iff that output is a witness program; without one, the input is unchanged and the flag is false. -/
+    iff that output is a witness program; without one, the input is unchanged, the flag is false, and a supplied witness_utxo is not a
+    legacy p2pkh output (such a PSBT is refused: the value could not be verified). -/
 theorem C19_psbt (p p' : Psbt) (flags : List Bool) (h : decode p = some (p', flags)) :
     p'.txInputs = p.txInputs ∧ p'.txRest = p.txRest ∧
     p'.inputs.length = p.inputs.length ∧ flags.length = p.inputs.length ∧
     ∀ (i : Nat) ti pi, p.txInputs[i]? = some ti → p.inputs[i]? = some pi →
       ∃ pi' f, p'.inputs[i]? = some pi' ∧ flags[i]? = some f ∧
         match pi.nonWitnessUtxo with
-        | none => pi' = pi ∧ f = false
+        | none => pi' = pi ∧ f = false ∧ ∀ w, pi.witnessUtxo = some w → isP2pkh w.script = false
         | some ptx =>
           ptx.txid = ti.prevTxid ∧ ∃ o, ptx.outputs[ti.vout]? = some o ∧
             pi'.witnessUtxo = some o ∧ f = isWitnessProgram o.script ∧
@@ -425,6 +489,20 @@ example : decode
   = some ({ txInputs := [{ prevTxid := [1], vout := 1 }, { prevTxid := [2], vout := 0 }], txRest := [],
             inputs := [{ nonWitnessUtxo := none, witnessUtxo := some ⟨7, [0, 2, 9, 9]⟩ },
                        { nonWitnessUtxo := none, witnessUtxo := none }] }, [true, false]) := by
+  decide +kernel
+
+/-- a legacy p2pkh coin presented only through witness_utxo is refused; the same script with the
+    previous transaction supplied is accepted (flag false) -/
+example : stepInput { prevTxid := [1], vout := 0 }
+    { nonWitnessUtxo := none,
+      witnessUtxo := some ⟨1500000, [0x76, 0xa9, 0x14] ++ List.replicate 20 7 ++ [0x88, 0xac]⟩ } = none := by
+  decide +kernel
+
+example : stepInput { prevTxid := [1], vout := 0 }
+    { nonWitnessUtxo := some { txid := [1], outputs := [⟨2000000, [0x76, 0xa9, 0x14] ++ List.replicate 20 7 ++ [0x88, 0xac]⟩] },
+      witnessUtxo := none }
+    = some ({ nonWitnessUtxo := none,
+              witnessUtxo := some ⟨2000000, [0x76, 0xa9, 0x14] ++ List.replicate 20 7 ++ [0x88, 0xac]⟩ }, false) := by
   decide +kernel
 
 end VlsModel.Props.C19
